@@ -348,20 +348,27 @@ def generate(repo):
            'From Coq Require Import String.', 'From Coq Require Import NArith List.',
            'From PyIpmi Require Import Lib.Bytes Model.Codec.', 'Import ListNotations.',
            'Open Scope string_scope.', 'Open Scope N_scope.', '']
-    entries = []
+    entries, untranslated = [], []
     for n in names:
         cls = R.registry[n]
-        out.append('Definition L_%s : layout := %s.' % (n, tr_layout(cls, M)))
+        lay = tr_layout(cls, M)
+        out.append('Definition L_%s : layout := %s.' % (n, lay))
         grp = cls.__group_extension__
         netfn, cmd, lun = cls.__netfn__, cls.__cmdid__, cls.__default_lun__
-        entries.append('mkMsg %s %d %d %s %d L_%s' % (q(n), netfn, cmd,
-                                                       'None' if grp is None else '(Some %d)' % grp, lun, n))
+        e = 'mkMsg %s %d %d %s %d L_%s' % (q(n), netfn, cmd, 'None' if grp is None else '(Some %d)' % grp, lun, n)
         # the id tuple must map back to this class
         if R.registry.get((netfn, cmd, grp)) is not cls:
-            entries[-1] = 'mkMsg %s %d %d %s %d (Untranslated "id tuple registered for another class")' % (
+            e = 'mkMsg %s %d %d %s %d (Malformed "id tuple registered for another class")' % (
                 q(n), netfn, cmd, 'None' if grp is None else '(Some %d)' % grp, lun)
+        # A layout the translator cannot express is kept OUT of [registry] (no theorem is claimed
+        # for that class in this run; the C01 check then requires its implementation oracle to pass
+        # for it) so that one exotic class does not take every registry-based obligation down.
+        (untranslated if lay.startswith('Untranslated') else entries).append(e)
     out.append('')
     out.append('Definition registry : list msgdef := [\n  %s].' % ';\n  '.join(entries))
+    out.append('')
+    out.append('(* classes outside the translator\'s fragment in this run: downgraded, decided by the oracle only *)')
+    out.append('Definition registry_untranslated : list msgdef := [%s].' % ('\n  ' + ';\n  '.join(untranslated) if untranslated else ''))
     out.append('')
     out.append('(* independent count of @register_message_class classes in the source text *)')
     out.append('Definition ast_class_count : nat := %d.' % ast_class_count(repo))
